@@ -790,10 +790,14 @@ func (m *Monitor) checkCommit(st *stmtState) {
 	evs := m.rc.Since(st.evStart)
 	got := map[string]string{}
 	failedBind := false
+	failedEvict := map[string]bool{} // the pod keeps running: the steps that re-placed it are void and not emitted
 	for _, e := range evs {
 		switch e.Kind {
 		case "evict":
 			got[e.UID] += "E"
+			if e.Err != "" {
+				failedEvict[e.UID] = true
+			}
 		case "pipeline":
 			got[e.UID] += "P"
 		case "bind":
@@ -817,6 +821,9 @@ func (m *Monitor) checkCommit(st *stmtState) {
 	}
 	if !failedBind {
 		for uid, want := range st.expect {
+			if failedEvict[uid] {
+				continue
+			}
 			if got[uid] != want {
 				if _, emitted := got[uid]; !emitted {
 					m.report13("commit-drops-valid-step", fmt.Sprintf("pod %s has valid operations %q but the commit emitted nothing", uid, want))
